@@ -20,7 +20,7 @@ Proof.
   assert (HA : applicable b m = true).
   { destruct Hm as [H|H]; [apply gen_applicable_valid|apply pseudo_legal_applicable_valid]; assumption. }
   split; [apply make_RepW; [apply Rep_RepW; exact HR|exact HA]|].
-  apply (hash_ok_make z b m (Rep_RepW b HR) HA HH).
+  apply (hash_ok_make z gen_layout b m (Rep_RepW b HR) HA HH).
 Qed.
 Print Assumptions C04_closed_step.
 
